@@ -427,7 +427,8 @@ class WebSocket:
                     raise WebSocketPayloadException(f"cannot decode: {e}")
             elif isinstance(data_received, str):
                 return data_received
-        elif opcode == ABNF.OPCODE_BINARY:
+        elif opcode == ABNF.OPCODE_BINARY or opcode == ABNF.OPCODE_CONT:
+            # (a continuation fragment reaches here only with fire_cont_frame)
             data_binary: bytes = data
             return data_binary
         else:
